@@ -8,6 +8,7 @@ func init() {
 	vHarnesses["H_C03_anyxml"] = H_C03_anyxml
 	vHarnesses["H_C03_anyxml_lists"] = H_C03_anyxml_lists
 	vHarnesses["H_C03_encode_prefix"] = H_C03_encode_prefix
+	vHarnesses["H_C03_empty_text"] = H_C03_empty_text
 }
 
 type vJSpec struct {
@@ -99,6 +100,8 @@ func vNondetJSON(s vJSpec, depth int, top bool) interface{} {
 // yields one element per member (nested lists flattened), an empty list one empty element.
 func refTreesOf(tag string, v interface{}) []*vXElem {
 	switch c := v.(type) {
+	case Map: // a value of the named type is a map like any other
+		return refTreesOf(tag, map[string]interface{}(c))
 	case []interface{}:
 		if len(c) == 0 {
 			return []*vXElem{{name: tag}}
@@ -263,13 +266,17 @@ func H_C03_anyxml_lists() {
 	for i := 0; i < n; i++ {
 		k := vNondetString(1, 1, "ab")
 		var val interface{}
-		switch vChoose(4) {
+		switch vChoose(7) {
 		case 0:
 			val = []interface{}{vNondetString(1, 1, "x<"), "y"}
 		case 1:
 			val = []interface{}{map[string]interface{}{"c": "1"}, "z"}
 		case 2:
 			val = []interface{}{}
+		case 4:
+			val = Map{} // an empty map of the named type: an empty element
+		case 5:
+			val = []interface{}{Map{}, map[string]interface{}{}, Map{"c": "1"}, "w"}
 		default:
 			val = vNondetString(1, 1, "x<")
 		}
@@ -323,4 +330,42 @@ func H_C03_encode_prefix() {
 	vAssert(derr == nil && vSingleRoot(x), "encode(prefix): the output is well formed")
 	vAssert(len(m2) == 1 && vDeepEq(m2["r"], inner), "encode(prefix): every entry comes back - as an attribute if its key is longer than the prefix and starts with it, else as a child element")
 	vCover("prefix")
+}
+
+// an empty text entry beside attributes or children: an empty element, nothing else lost
+func H_C03_empty_text() {
+	vResetDecOpts()
+	if vChoose(2) == 1 {
+		XmlGoEmptyElemSyntax()
+	}
+	inner := map[string]interface{}{"#text": ""}
+	want := map[string]interface{}{}
+	if vChoose(2) == 1 {
+		v := vNondetString(1, 1, "12")
+		inner["-id"], want["-id"] = v, v
+	}
+	if vChoose(2) == 1 {
+		inner["k"], want["k"] = "x", "x"
+	}
+	m := Map{"r": map[string]interface{}{"item": inner, "z": "1"}}
+	var x []byte
+	var err error
+	if vChoose(2) == 1 {
+		x, err = m.XmlIndent("", " ")
+	} else {
+		x, err = m.Xml()
+	}
+	XmlDefaultEmptyElemSyntax()
+	vAssert(err == nil, "empty text: encodes")
+	vAssert(vSingleRoot(x), "empty text: the output is well formed with exactly one root")
+	m2, derr := NewMapXml(x)
+	vAssert(derr == nil, "empty text: the output decodes")
+	r, _ := m2["r"].(map[string]interface{})
+	vAssert(r != nil && r["z"] == "1", "empty text: siblings are kept")
+	if len(want) == 0 {
+		vAssert(r["item"] == "", "empty text: an element with nothing but an empty text is an empty element")
+	} else {
+		vAssert(vDeepEq(r["item"], want), "empty text: attributes and children are kept, the empty text adds nothing")
+	}
+	vCover("emptytext")
 }
